@@ -17,18 +17,21 @@ FUNCTIONS positional parameters only (names and order must match the declaration
           an option-typed parameter).  `self`: attribute reads `self.<a>` (declared in Fn.self_attrs) become explicit
           parameters `self_<a>`; `self.<m>(args)` calls the translation of method <m> (which must have been
           translated before) with the self-parameters it needs.  An inner function is translated with the variables
-          it closes over as explicit parameters (Fn.closure).  The result type is `res <declared type>`.
+          it closes over as explicit parameters (Fn.closure).  A function that ends with `def inner..; return inner`
+          (Fn.returns_inner) is translated APPLIED to the parameters of the closure it returns.  External code is a
+          function parameter (Fn.externals, e.g. re.compile -> re_compile).  The result type is `res <declared type>`.
 
-STATEMENTS  x = e | a, b = e (e a 2-tuple) | x += e, x -= e, x *= e, x //= e, x %= e
-          if/elif/else    (a test `x is None` / `x is not None` on an option-typed variable becomes a `match` and the
-                           variable has the inner type in the not-None branch; what follows the `if` is translated
+STATEMENTS  x = e | x = None (x IS None until assigned again) | a, b = e (e a 2-tuple)
+          x += e, x -= e, x *= e, x //= e, x %= e   (x an int)
+          if/elif/else    (a test `x is None` / `x is not None` / `x` on an option-typed variable becomes a `match` and the
+                           variable has the inner type where it is not None; what follows the `if` is translated
                            once per branch that falls through, with the variable types of that branch)
           for x in <list expr | range(..)>: <block>      -> py_for; the loop-carried state is the tuple of variables
                            assigned in the body that exist before the loop; variables first assigned in the body are
                            local to one iteration; `return` inside the body leaves the function; no break/continue/else
-          return e | return        raise <ValueError|IndexError|KeyError|TypeError>(<string literal> [% e])
+          return e | return        raise <ValueError|IndexError|KeyError|TypeError>(<string literal> [% e | % (e1, .., en)])
                            (a `%` whose number of conversions differs from the number of arguments is the TypeError
-                            Python raises while building the message)
+                            Python raises while building the message; a 2-tuple VALUE counts as two arguments)
           assert False     -> Err ECrash         pass, docstrings -> nothing
 EXPRESSIONS names | int >= 0, str, None, True, False literals | 2-tuples | self.<attr>
           ==  !=  (by type: Nat.eqb, str_eqb, veqb, py_list_eqb, py_pair_eqb, py_option_eqb)   <  <=  >  >=  (nat)
@@ -39,7 +42,8 @@ EXPRESSIONS names | int >= 0, str, None, True, False literals | 2-tuples | self.
           len(e)   int(e) (e a nat)   min(a, b)   max(a, b)   range(b) | range(a, b)
           e[i]  (i a literal int, possibly negative, or a nat expression; IndexError -> Err EIndex)
           e[a:b]  (bounds omitted, literal ints possibly negative, or nat expressions; no step)
-          all(<cond> for v in <list expr>)   <regex>.search(<str>)   self.<method>(args)
+          all(<cond> for v in <list expr>)   [<expr that cannot raise> for v in <list expr>]   '<literal>'.join(<list of str>)
+          <regex>.search(<str>)   self.<method>(args)   <external>(args)
 Everything that can raise becomes a monadic bind, emitted in Python's evaluation order."""
 import ast, re
 from astlib import TableError, find_func, cstr, cnat
@@ -64,7 +68,7 @@ CNAME = PAIR(STR, STR)
 RESERVED = set('''if then else let in match with end fun do forall exists as return at using where fix cofix for Type Prop Set
 Ok Err Some None true false negb andb orb tt fst snd nat bool list option unit str res bind
 EValue EIndex EKey EType ECrash Ret Next BPos BNeg pslice py_index py_floordiv py_mod py_sub py_range py_all py_for
-py_list_eqb py_pair_eqb py_option_eqb py_in str_eqb length app Nat List Bool PyOps2 cname N Z Q'''.split())
+py_list_eqb py_pair_eqb py_option_eqb py_in py_join str_eqb length app map Nat List Bool PyOps2 cname N Z Q'''.split())
 
 EXC = {'ValueError': 'EValue', 'IndexError': 'EIndex', 'KeyError': 'EKey', 'TypeError': 'EType'}
 
@@ -73,8 +77,10 @@ class Fn:
     """Declared signature of one translated function."""
 
     def __init__(self, coq_name, rel, name, ret, params, cls=None, inner=None, self_attrs=None, closure=None,
-                 tparams=(), eqs=None):
+                 tparams=(), eqs=None, externals=None, returns_inner=None):
         self.coq_name, self.rel, self.name, self.cls, self.inner = coq_name, rel, name, cls, inner
+        self.externals = dict(externals or {})   # dotted Python name -> (Coq parameter name, [argument types], result type)
+        self.returns_inner = returns_inner       # the function ends with `def <inner>..; return <inner>` (a closure)
         self.ret = ret
         self.params = list(params)               # [(python name, type)] in source order (without self)
         self.self_attrs = list(self_attrs or [])  # [(attribute, type)] -> parameters self_<attribute>, in this order
@@ -91,6 +97,8 @@ class Tr:
         self.tmp = 0
         self.binds = []
         self.used = set()
+        self.used_ext = set()
+        self.loop_depth = 0
         self.size = 0
 
     # ------------------------------------------------------------------ helpers
@@ -227,6 +235,10 @@ class Tr:
         if isinstance(e, ast.Name):
             if e.id not in env:
                 self.fail(e, 'unknown variable %s' % e.id)
+            if env[e.id] == NONE:
+                return 'None', NONE
+            if isinstance(env[e.id], tuple) and env[e.id][0] == 'closure':
+                self.fail(e, 'an inner function can only be returned')
             return e.id, env[e.id]
         if isinstance(e, ast.Constant):
             v = e.value
@@ -266,6 +278,20 @@ class Tr:
             return self.binop(e.op, e.left, e.right, e, env)
         if isinstance(e, ast.Call):
             return self.call(e, env)
+        if isinstance(e, ast.ListComp):
+            if len(e.generators) != 1 or e.generators[0].ifs or e.generators[0].is_async \
+                    or not isinstance(e.generators[0].target, ast.Name):
+                self.fail(e, 'list comprehension: only `[expr for v in seq]`')
+            seq, ts = self.expr(e.generators[0].iter, env)
+            if not (isinstance(ts, tuple) and ts[0] == 'list'):
+                self.fail(e, 'comprehension over a value of type %r' % (ts,))
+            v = self.var(e.generators[0].target.id, e)
+            env2 = dict(env)
+            env2[v] = ts[1]
+            (c, tc), binds = self.lazy(lambda: self.expr(e.elt, env2))
+            if binds or tc in (NONE, TRUTH):
+                self.fail(e, 'comprehension element that can raise / of undetermined type')
+            return '(List.map (fun %s => %s) %s)' % (v, c, seq), LIST(tc)
         if isinstance(e, ast.Subscript):
             a, ta = self.expr(e.value, env)
             if not (ta == STR or (isinstance(ta, tuple) and ta[0] == 'list')):
@@ -432,6 +458,23 @@ class Tr:
             if callee.tparams or callee.closure:
                 self.fail(e, 'call of a polymorphic / inner function')
             return self.bind('%s %s' % (callee.coq_name, ' '.join(args))), callee.ret
+        if isinstance(f, ast.Attribute) and f.attr == 'join' and len(e.args) == 1 and isinstance(f.value, ast.Constant) \
+                and isinstance(f.value.value, str):
+            a, ta = self.expr(e.args[0], env)
+            if ta != LIST(STR):
+                self.fail(e, 'join() of a value of type %r' % (ta,))
+            return '(py_join %s %s)' % (cstr(f.value.value), a), STR
+        if isinstance(f, ast.Attribute) and isinstance(f.value, ast.Name) and f.value.id not in env \
+                and (f.value.id + '.' + f.attr) in self.spec.externals:
+            name, targs, tret = self.spec.externals[f.value.id + '.' + f.attr]
+            if len(e.args) != len(targs):
+                self.fail(e, '%s.%s(): wrong number of arguments' % (f.value.id, f.attr))
+            args = []
+            for x, t in zip(e.args, targs):
+                a, ta = self.expr(x, env)
+                args.append(self.coerce(a, ta, t, x))
+            self.used_ext.add(f.value.id + '.' + f.attr)
+            return '(%s %s)' % (name, ' '.join(args)), tret
         if isinstance(f, ast.Attribute) and f.attr == 'search' and len(e.args) == 1:
             r, tr = self.expr(f.value, env)
             k, tk = self.expr(e.args[0], env)
@@ -527,10 +570,17 @@ class Tr:
                 if not (isinstance(tgt, ast.Name) and env.get(tgt.id) == NAT):
                     self.fail(st, 'augmented assignment to something else than a known integer variable')
                 (t, ty), binds = self.lazy(lambda: self.binop(st.op, (tgt.id, env[tgt.id]), st.value, st, env))
-            if ty in (NONE, TRUTH):
-                self.fail(st, 'assignment of a value whose type is not determined (%s)' % ty)
+            if ty == TRUTH:
+                self.fail(st, 'assignment of a value of which only the truthiness is known')
             env2 = dict(env)
-            if isinstance(tgt, ast.Name):
+            if isinstance(tgt, ast.Name) and ty == NONE:
+                if isinstance(st, ast.AugAssign) or binds:
+                    self.fail(st, 'unsupported assignment of None')
+                env2[self.var(tgt.id, st)] = NONE          # the variable IS None until it is assigned again
+                head = ''
+            elif ty == NONE:
+                self.fail(st, 'unsupported assignment of None')
+            elif isinstance(tgt, ast.Name):
                 env2[self.var(tgt.id, st)] = ty
                 head = '%slet %s := %s in\n' % (pad, tgt.id, t)
             elif isinstance(tgt, ast.Tuple) and len(tgt.elts) == 2 and all(isinstance(x, ast.Name) for x in tgt.elts) \
@@ -541,6 +591,25 @@ class Tr:
             else:
                 self.fail(st, 'unsupported assignment target')
             return self.lines(binds, pad) + head + self.block(rest, env2, k, ret, ind)
+        if isinstance(st, ast.FunctionDef):
+            inner = self.registry.get((self.spec.cls, self.spec.name + '.' + st.name))
+            if self.spec.returns_inner != st.name or inner is None or inner.used_attrs is None or self.loop_depth:
+                self.fail(st, 'inner function %s is not declared as the returned closure' % st.name)
+            if not (len(rest) == 1 and isinstance(rest[0], ast.Return) and isinstance(rest[0].value, ast.Name)
+                    and rest[0].value.id == st.name):
+                self.fail(st, 'an inner function must be followed by `return %s` only' % st.name)
+            if inner.eqs or inner.self_attrs or inner.externals or any(tv not in self.spec.tparams for tv in inner.tparams):
+                self.fail(st, 'inner function with parameters the outer one cannot supply')
+            args = []
+            for cname_, t in inner.closure:
+                if cname_ not in env:
+                    self.fail(st, 'closure variable %s is not assigned on this path' % cname_)
+                a, ta = self.expr(ast.Name(id=cname_, ctx=ast.Load(), lineno=st.lineno), env)
+                args.append(self.coerce(a, ta, t, st))
+            for p_, _ in inner.params:
+                if p_ in env:
+                    self.fail(st, 'parameter %s of the inner function shadows a variable of the outer one' % p_)
+            return '%s%s %s %s\n' % (pad, inner.coq_name, ' '.join(args), ' '.join(p_ for p_, _ in inner.params))
         if isinstance(st, ast.Return):
             if rest:
                 self.fail(rest[0], 'statement after return')
@@ -573,6 +642,16 @@ class Tr:
                 return ('%smatch %s with\n%s| None =>\n%s%s| Some %s =>\n%s%send\n'
                         % (pad, x, pad, self.block(b_none, env, k2, ret, ind + 1), pad, x,
                            self.block(b_some, envs, k2, ret, ind + 1), pad))
+            if isinstance(c, ast.Name) and isinstance(env.get(c.id), tuple) and env[c.id][0] == 'option':
+                x = c.id
+                envs = dict(env)
+                envs[x] = env[x][1]
+                inner_truth = self.truth(x, env[x][1], c)
+                some = self.block(st.body, envs, k2, ret, ind + 2 if inner_truth != 'true' else ind + 1)
+                if inner_truth != 'true':
+                    some = '%s  if %s then\n%s%s  else\n%s' % (pad, inner_truth, some, pad, self.block(st.orelse, envs, k2, ret, ind + 2))
+                return ('%smatch %s with\n%s| Some %s =>\n%s%s| None =>\n%s%send\n'
+                        % (pad, x, pad, x, some, pad, self.block(st.orelse, env, k2, ret, ind + 1), pad))
             binds, t, ty = self.stmt_expr(c, env)
             return ('%s%sif %s then\n%s%selse\n%s'
                     % (self.lines(binds, pad), pad, self.truth(t, ty, c), self.block(st.body, env, k2, ret, ind + 1), pad,
@@ -609,7 +688,9 @@ class Tr:
                 return 'Ok (Ret %s)' % self.coerce(t, ty, self.spec.ret, node)
             env_body = dict(env)
             env_body[x] = ts[1]
+            self.loop_depth += 1
             body = self.block(st.body, env_body, k_body, ret_body, ind + 2)
+            self.loop_depth -= 1
             c = self.fresh('c')
             after = self.block(rest, env, k, ret, ind + 1)
             rv = self.fresh('rv')
@@ -657,11 +738,21 @@ class Tr:
         for tv in spec.tparams:
             if tv in spec.eqs:
                 params.append('(%s : %s -> %s -> bool)' % (spec.eqs[tv], tv, tv))
+        for ext in sorted(spec.externals):
+            if ext in self.used_ext:
+                name, targs, tret = spec.externals[ext]
+                params.append('(%s : %s)' % (self.var(name, fn), ' -> '.join(self.ctype(t) for t in targs + [tret])))
         for a_, t in spec.self_attrs:
             if a_ in used:
                 params.append('(self_%s : %s)' % (a_, self.ctype(t)))
         for p, t in spec.closure + spec.params:
             params.append('(%s : %s)' % (p, self.ctype(t)))
+        if spec.returns_inner:
+            inner = self.registry[(spec.cls, spec.name + '.' + spec.returns_inner)]
+            if inner.ret != spec.ret:
+                self.fail(fn, 'declared result type differs from the one of the returned inner function')
+            for p, t in inner.params:
+                params.append('(%s : %s)' % (p, self.ctype(t)))
         spec.lineno = fn.lineno
         return '(* %s:%d %s%s *)\nDefinition %s %s : res %s :=\n%s.\n' % (
             spec.rel, fn.lineno, (spec.cls + '.') if spec.cls else '', spec.name + (('.' + spec.inner) if spec.inner else ''),
@@ -683,7 +774,7 @@ def translate_all(src, specs):
             if len(inner) != 1:
                 raise TableError('%s: expected exactly one inner function %s' % (spec.name, spec.inner))
             # the variables the inner function closes over must be assigned in the outer function or be its parameters
-            outer_names = set(x.arg for x in fn.args.args) | set(Tr.assigned([s for s in fn.body if s is not inner[0]]))
+            outer_names = set(x.arg for x in fn.args.args) | set(Tr.assigned([s_ for s_ in fn.body if s_ is not inner[0]]))
             for c, _ in spec.closure:
                 if c not in outer_names:
                     raise TableError('%s: closure variable %s is not defined in %s' % (spec.inner, c, spec.name))
@@ -695,5 +786,5 @@ def translate_all(src, specs):
                 raise TableError('%s: undeclared free variables %s' % (spec.inner, sorted(extra)))
             fn = inner[0]
         out.append(Tr(spec, fn, registry).translate() + '\n')
-        registry[(spec.cls, spec.name)] = spec
+        registry[(spec.cls, spec.name + (('.' + spec.inner) if spec.inner else ''))] = spec
     return ''.join(out)
